@@ -392,6 +392,9 @@ func (k *kRunner) step(i int, st kStep) bool {
 	switch {
 	case cl.kind == "refused" && bound:
 		k.fail(i, "refusal", "refused-class-accepted", "%s(%q) must be refused but succeeded", st.Mode, st.Addr)
+	case must == "ok" && !bound && cl.network == "tcp" && strings.Contains(bindErr.Error(), "address already in use"):
+		// the port chosen a moment ago was taken by another process in the meantime: not a finding
+		k.count["tcp.port-taken"]++
 	case must == "ok" && !bound:
 		k.fail(i, "bind", "valid-address-failed", "%s(%q) failed although nothing is in the way (env %s): %v", st.Mode, st.Addr, st.Env, bindErr)
 	case must == "fail" && bound:
